@@ -116,10 +116,11 @@ Section S.
     w_fs w1 = w_fs w /\ w_tr w1 = w_tr w /\ q1 = q.
   Proof.
     intros w q o H. destruct o; simpl in H; try discriminate; simpl.
-    - auto.
-    - pose proof (open_id_fs w s i) as Hf. destruct (open_id w s i) as [w1 r]. simpl in *. tauto.
+    - destruct (ensure_read_fs w s) as [A [B _]]. auto.
+    - pose proof (open_id_fs (ensure_read w s) s i) as Hf. destruct (ensure_read_fs w s) as [A [B _]].
+      destruct (open_id (ensure_read w s) s i) as [w1 r]. simpl in *. rewrite A, B in Hf. tauto.
     - pose proof (sp_read_fs w h) as Hf. destruct (sp_read frepr w h) as [w1 r]. simpl in *. tauto.
-    - pose proof (cached_sp_fs frepr w h) as Hf. destruct (cached_sp frepr w h) as [w1 r]. simpl in *. tauto.
+    - pose proof (cached_sp_r_fs frepr w h) as Hf. destruct (cached_sp_r frepr w h) as [w1 r]. simpl in *. tauto.
     - auto.
     - auto.
     - auto.
